@@ -225,6 +225,89 @@ def run(ctx):
         uses = [i for i in f.calls() if (f.bcallee(i) or '').startswith('cppcms::crypto::cbc::')]
         ctx.check(bool(lcalls) and all(q.before(f, lcalls[0], u) for u in uses), R5, '%s:load-first' % q.fkey(f), 'cbc object used before load()', f.where)
     ctx.floor(R5, 6)
+    # ---- R7 KEY-SPLIT -------------------------------------------------------------------
+    R7 = ctx.rule('C05.R7', 'aes_factory(algo,key): the encryption key and the MAC key are taken from disjoint material that covers the configured secret '
+                            '(exact-length key: [0,cbc) and [cbc,cbc+digest); shorter key: two separate HMAC derivations with different labels)')
+    from vlib import lin
+    from vlib.lin import Lin, ge, eq
+    af = [f for f in P.by_bname.get('cppcms::sessions::impl::aes_factory::aes_factory', []) if len(f.params) == 2]
+    ctx.require(len(af) == 1, 'C05.R7: aes_factory(algo,key) not found')
+    af = af[0]
+    kp = q.param_by_index(af, 1)
+    sets = [i for i in af.calls() if af.bcallee(i) == 'cppcms::crypto::key::set' and len(af.args(i)) == 2]
+    which = lambda i: (q.obj_field(af, i) or '').rsplit('::', 1)[-1]
+    direct = [i for i in sets if kp in af.subtree_refs(af.args(i)[0])]
+    derived = [i for i in sets if i not in direct]
+    ctx.check(sorted(which(i) for i in direct) == ['cbc_key_', 'hmac_key_'] and sorted(which(i) for i in derived) == ['cbc_key_', 'hmac_key_'], R7,
+              'aes_factory:both-keys-set-in-both-modes', 'expected cbc_key_ and hmac_key_ to be set once in the exact-length mode and once in the derived mode', af.where)
+    S = lin.Symb(af)
+    if len(direct) == 2:
+        base = None
+        parts = {}
+        for i in direct:
+            pl = S.lin(af.args(i)[0])
+            datas = [a for a in pl.atoms() if a.endswith('.data()')]
+            off = pl
+            for a in datas:
+                off = off - Lin.atom(a)
+            parts[which(i)] = (off, S.lin(af.args(i)[1]), datas)
+        okb = all(len(d) == 1 for (_, _, d) in parts.values())
+        (oc, nc, _), (oh, nh, _) = parts.get('cbc_key_', (None, None, None)), parts.get('hmac_key_', (None, None, None))
+        ksz = Lin.atom(kp + '.size()')
+        # facts: the gate of the branch, sizes are non-negative
+        gate = None
+        for i in direct:
+            for (b, s_, lab, tag) in [e for e in af.gate_edges(lambda atom, pol: af.N(atom)['k'] == 'BinaryOperator' and af.N(atom).get('op') == '==' and pol is True and
+                                                              any(r == kp for r in af.subtree_refs(atom))) if len(e) == 4]:
+                pass
+        g_exact = af.gate_edges(lambda atom, pol: af.N(atom)['k'] == 'BinaryOperator' and af.N(atom).get('op') == '==' and pol is True and kp in af.subtree_refs(atom))
+        conds = []
+        for B in af.blocks.values():
+            if B.tcond is not None and af.N(af.strip(B.tcond))['k'] == 'BinaryOperator' and af.N(af.strip(B.tcond)).get('op') == '==' and kp in af.subtree_refs(B.tcond):
+                conds.append(af.strip(B.tcond))
+        cons = []
+        for c in conds[:1]:
+            cons += S.rel(c, True) or []
+        for e in (nc, nh):
+            cons += [ge(a_) for a_ in [Lin.atom(x) for x in e.atoms()]]
+        inb = okb and bool(conds) and all(af.only_through(i, g_exact) for i in direct)
+        goals = [('cbc-in-bounds', [ge(oc), ge(ksz - oc - nc)]), ('hmac-in-bounds', [ge(oh), ge(ksz - oh - nh)]), ('cover', [eq(nc + nh - ksz)])]
+        for nm, gl in goals:
+            ctx.check(inb and all(lin.implies(cons, g_) for g_ in gl), R7, 'aes_factory:exact-key:%s' % nm, 'not provable from k.size() == cbc_key_size + digest_size', af.loc(direct[0]),
+                      detail={'cbc': [repr(oc), repr(nc)], 'hmac': [repr(oh), repr(nh)]})
+        disj = inb and (lin.implies(cons, ge(oh - oc - nc)) or lin.implies(cons, ge(oc - oh - nh)))
+        ctx.check(disj, R7, 'aes_factory:exact-key:disjoint', 'the MAC key overlaps the encryption key (part of the configured secret is unused)', af.loc(direct[0]),
+                  detail={'cbc': [repr(oc), repr(nc)], 'hmac': [repr(oh), repr(nh)]})
+        # roles of the two lengths
+        for nm, e, meth in (('cbc_key_', nc, 'key_size'), ('hmac_key_', nh, 'digest_size')):
+            ats = list(e.atoms())
+            okr = len(ats) == 1 and ats[0].startswith('v:')
+            if okr:
+                ds = af.defs_of_var(ats[0])
+                okr = len(ds) == 1 and ds[0][1] is not None and any(q.short_of(af.callee(j)) == meth for j in af.calls(ds[0][1]))
+            ctx.check(okr, R7, 'aes_factory:exact-key:%s-length-is-%s' % (nm, meth), 'length of %s is not %s()' % (nm, meth), af.loc(direct[0]))
+    if len(derived) == 2:
+        roots = {}
+        for i in derived:
+            rs = [r for r in af.subtree_refs(af.args(i)[0]) if r.startswith('v:')]
+            roots[which(i)] = rs[0] if len(rs) == 1 else None
+        ctx.check(None not in roots.values() and len(set(roots.values())) == 2, R7, 'aes_factory:derived:distinct-buffers', 'both keys are taken from the same derived buffer', af.loc(derived[0]))
+        ro = [i for i in af.calls() if af.bcallee(i) == 'cppcms::crypto::hmac::readout']
+        ap = [i for i in af.calls() if af.bcallee(i) == 'cppcms::crypto::hmac::append']
+        tgt = []
+        for i in ro:
+            rs = [r for r in af.subtree_refs(af.args(i)[0]) if r.startswith('v:')]
+            tgt.append(rs[0] if len(rs) == 1 else None)
+        labels = []
+        for i in ap:
+            lits = [af.N(j).get('s') for j in af.walk(af.args(i)[0]) if af.N(j)['k'] == 'StringLiteral']
+            labels.append(lits[0] if lits else None)
+        okd = len(ro) == 2 and len(ap) == 2 and sorted(x or '' for x in tgt) == sorted(x or '' for x in roots.values()) and None not in labels and labels[0] != labels[1]
+        okd = okd and all(q.before(af, ap[k], ro[k]) for k in range(2)) and q.before(af, ro[0], ap[1])
+        ctx.check(okd, R7, 'aes_factory:derived:two-labelled-derivations', 'the two sub-keys are not two separate HMAC outputs over different labels', af.loc(derived[0]),
+                  detail={'labels': labels})
+    ctx.floor(R7, 8)
+
     base64_clause(ctx)
 
 
